@@ -99,3 +99,101 @@ Proof.
   intros fuel e inp rest pos' H. destruct (run_adv _ _ _ _ _ _ _ H) as [c [-> ->]]. rewrite app_length. lia.
 Qed.
 End Proofs.
+
+(** * verdicts do not depend on the fuel once there is enough *)
+Section Mono.
+Variable g : grammar.
+
+Theorem run_mono : forall f atomic e inp pos r,
+  run g f atomic e inp pos = r -> r <> RFuel -> forall f', (f <= f')%nat -> run g f' atomic e inp pos = r.
+Proof.
+  induction f as [|f IH]; intros atomic e inp pos r H Hr f' Hle; [cbn in H; congruence|].
+  destruct f' as [|f'']; [lia|]. assert (Hf : (f <= f'')%nat) by lia.
+  assert (IH' : forall a e i p x, run g f a e i p = x -> x <> RFuel -> run g f'' a e i p = x).
+  { intros a e0 i p x Hx Hn. eapply IH; eassumption. }
+  (* the implicit skip, at both fuels *)
+  assert (Hskip : forall i p x,
+            (if atomic then RMatch i p else run g f true (PRep (PChoice (PIdent "WHITESPACE") (PIdent "COMMENT"))) i p) = x -> x <> RFuel ->
+            (if atomic then RMatch i p else run g f'' true (PRep (PChoice (PIdent "WHITESPACE") (PIdent "COMMENT"))) i p) = x).
+  { intros i p x Hx Hn. destruct atomic; [exact Hx|apply IH'; assumption]. }
+  destruct e; cbn [run] in H |- *.
+  - exact H.
+  - exact H.
+  - (* PIdent *)
+    repeat match goal with
+           | |- (if bool_decide ?c then _ else _) = _ => destruct (bool_decide c)
+           end; try exact H.
+    destruct (glookup g name) as [[k body]|]; [|exact H]. apply IH'; assumption.
+  - (* PSeq *)
+    destruct (run g f atomic e1 inp pos) as [r1 p1| |] eqn:E1.
+    + rewrite (IH' _ _ _ _ _ E1 ltac:(discriminate)).
+      match type of H with match ?s with _ => _ end = _ => destruct s as [r2 p2| |] eqn:E2 end.
+      * rewrite (Hskip _ _ _ E2 ltac:(discriminate)). apply IH'; assumption.
+      * rewrite (Hskip _ _ _ E2 ltac:(discriminate)). exact H.
+      * congruence.
+    + rewrite (IH' _ _ _ _ _ E1 ltac:(discriminate)). exact H.
+    + congruence.
+  - (* PChoice *)
+    destruct (run g f atomic e1 inp pos) as [r1 p1| |] eqn:E1.
+    + rewrite (IH' _ _ _ _ _ E1 ltac:(discriminate)). exact H.
+    + rewrite (IH' _ _ _ _ _ E1 ltac:(discriminate)). apply IH'; assumption.
+    + congruence.
+  - (* POpt *)
+    destruct (run g f atomic e inp pos) as [r1 p1| |] eqn:E1.
+    + rewrite (IH' _ _ _ _ _ E1 ltac:(discriminate)). exact H.
+    + rewrite (IH' _ _ _ _ _ E1 ltac:(discriminate)). exact H.
+    + congruence.
+  - (* PRep *)
+    destruct (run g f atomic e inp pos) as [r1 p1| |] eqn:E1.
+    + rewrite (IH' _ _ _ _ _ E1 ltac:(discriminate)).
+      destruct (p1 =? pos)%N; [exact H|].
+      match type of H with match ?s with _ => _ end = _ => destruct s as [r2 p2| |] eqn:E2 end.
+      * rewrite (Hskip _ _ _ E2 ltac:(discriminate)).
+        destruct (run g f atomic (PRepOnce e) r2 p2) as [r3 p3| |] eqn:E3.
+        -- rewrite (IH' _ _ _ _ _ E3 ltac:(discriminate)). exact H.
+        -- rewrite (IH' _ _ _ _ _ E3 ltac:(discriminate)). exact H.
+        -- congruence.
+      * rewrite (Hskip _ _ _ E2 ltac:(discriminate)). exact H.
+      * congruence.
+    + rewrite (IH' _ _ _ _ _ E1 ltac:(discriminate)). exact H.
+    + congruence.
+  - (* PRepOnce *)
+    destruct (run g f atomic e inp pos) as [r1 p1| |] eqn:E1.
+    + rewrite (IH' _ _ _ _ _ E1 ltac:(discriminate)).
+      destruct (p1 =? pos)%N; [exact H|].
+      match type of H with match ?s with _ => _ end = _ => destruct s as [r2 p2| |] eqn:E2 end.
+      * rewrite (Hskip _ _ _ E2 ltac:(discriminate)).
+        destruct (run g f atomic (PRepOnce e) r2 p2) as [r3 p3| |] eqn:E3.
+        -- rewrite (IH' _ _ _ _ _ E3 ltac:(discriminate)). exact H.
+        -- rewrite (IH' _ _ _ _ _ E3 ltac:(discriminate)). exact H.
+        -- congruence.
+      * rewrite (Hskip _ _ _ E2 ltac:(discriminate)). exact H.
+      * congruence.
+    + rewrite (IH' _ _ _ _ _ E1 ltac:(discriminate)). exact H.
+    + congruence.
+  - (* PNeg *)
+    destruct (run g f atomic e inp pos) as [r1 p1| |] eqn:E1.
+    + rewrite (IH' _ _ _ _ _ E1 ltac:(discriminate)). exact H.
+    + rewrite (IH' _ _ _ _ _ E1 ltac:(discriminate)). exact H.
+    + congruence.
+  - (* PPos *)
+    destruct (run g f atomic e inp pos) as [r1 p1| |] eqn:E1.
+    + rewrite (IH' _ _ _ _ _ E1 ltac:(discriminate)). exact H.
+    + rewrite (IH' _ _ _ _ _ E1 ltac:(discriminate)). exact H.
+    + congruence.
+Qed.
+
+(** hence a text has at most one verdict: two runs that both answer give the same answer *)
+Corollary accepts_deterministic : forall f1 f2 start inp b1 b2,
+  accepts g f1 start inp = Some b1 -> accepts g f2 start inp = Some b2 -> b1 = b2.
+Proof.
+  unfold accepts. intros f1 f2 start inp b1 b2 H1 H2.
+  destruct (Nat.le_ge_cases f1 f2) as [Hle|Hle].
+  - destruct (run g f1 false (PIdent start) inp 0) as [r p| |] eqn:E1; try discriminate.
+    + rewrite (run_mono _ _ _ _ _ _ E1 ltac:(discriminate) f2 Hle) in H2. congruence.
+    + rewrite (run_mono _ _ _ _ _ _ E1 ltac:(discriminate) f2 Hle) in H2. congruence.
+  - destruct (run g f2 false (PIdent start) inp 0) as [r p| |] eqn:E2; try discriminate.
+    + rewrite (run_mono _ _ _ _ _ _ E2 ltac:(discriminate) f1 Hle) in H1. congruence.
+    + rewrite (run_mono _ _ _ _ _ _ E2 ltac:(discriminate) f1 Hle) in H1. congruence.
+Qed.
+End Mono.
